@@ -519,7 +519,10 @@ Lemma tle_of_pair_wf sats e :
   tle_of_pair sats (entry_tle e) = Found (strip (e_l1 e)) (strip (e_l2 e)).
 Proof.
   intros G W. pose proof (wf_l1 e W) as W1.
-  unfold tle_of_pair, entry_tle. cbn [fst snd].
+  assert (W2 : prefixb two_sp (strip (e_l2 e)) = true).
+  { unfold wf_entry in W. apply andb_true_iff in W as [_ W]. exact W. }
+  unfold tle_of_pair, merged_lines, entry_tle. cbn [fst snd].
+  destruct (strip (e_l2 e)) as [|c b'] eqn:E2; [discriminate|]. rewrite <- E2.
   rewrite read_pair; [rewrite !strip_idem; reflexivity|exact G|rewrite strip_idem; exact W1].
 Qed.
 
